@@ -5,6 +5,7 @@ import (
 	"math"
 	"strings"
 
+	ppb "github.com/google/fhir/go/proto/google/fhir/proto/r4/core/resources/patient_go_proto"
 	"github.com/verily-src/fhirpath-go/fhirpath/system"
 	"github.com/verily-src/fhirpath-go/fhirpath/verifh/core"
 	"github.com/verily-src/fhirpath-go/fhirpath/verifh/lib"
@@ -705,7 +706,18 @@ var c10Paths = func() []c10Path {
 	qst := func() fhir.Resource { return lib.Questionnaire() }
 	bun := func() fhir.Resource { return lib.Bundle() }
 	urls := []string{"http://u", "http://v", "http://none"}
+	// criteria that yield FHIR boolean *elements* (not System Booleans), including false ones
+	patc := func() fhir.Resource {
+		p := lib.PatientWith(lib.B(false), lib.B(true))
+		for _, pref := range []bool{true, false, true} {
+			p.Communication = append(p.Communication, &ppb.Patient_Communication{Language: fhir.CodeableConcept("l"), Preferred: fhir.Boolean(pref)})
+		}
+		return p
+	}
 	return []c10Path{
+		{patc, "Patient", []string{"active", "deceased", "active.not()", "communication.exists()"}, nil},
+		{patc, "Patient.communication", []string{"preferred", "preferred.not()", "preferred = false", "language.exists()"}, nil},
+		{patc, "Patient.communication.preferred", []string{"$this", "$this.not()", "$this = true"}, nil},
 		{pat, "Patient", []string{"active", "active.not()", "name.exists()"}, urls},
 		{pat, "Patient.name", []string{"use = 'official'", "family = 'Jones'", "given.count() > 1", "family.exists()", "period.exists()"}, urls},
 		{pat, "Patient.name.given", []string{"$this = 'Ann'", "$this.length() > 2", "$this is string"}, urls},
